@@ -9,9 +9,17 @@
 //! the BFS-shortest history reaching the state, followed by one more `sample`, is turned into
 //! a circuit by the REAL `CircuitChallenger` on a REAL `CircuitBuilder`: observed values are
 //! public inputs; every sampled target `t` (base sample, every sampled bit, extension sample)
-//! is made a *public output* `e = K·t` (`mul` by the constant K = 7, `connect` to a fresh
-//! public input). The circuit is compiled by the real `build()`, run by the real runner, and
-//! its honest traces are proved and verified (fixture validation, `vpe3::Fixture`).
+//! is made a *public output*, in one of two EXPOSURE MODES:
+//!   x7      `e = K·t` (`mul` by the constant K = 7, `connect` to a fresh public input): the
+//!           sample stays an ordinary bus-read operand of an ALU row;
+//!   direct  `connect(t, fresh public input)`: the sampled slot itself is the public slot. The
+//!           row producing the sample (D=1: an exposed permutation rate output; D>1: a
+//!           decomposition hint output / a recomposition) becomes a SECOND writer of a slot the
+//!           Public row already created — the way challenges are exposed or compared in practice.
+//! Mode x7 runs the full history set; mode direct the histories of depth <= 2 (quick) /
+//! <= min(configuration depth, 4) (thorough), base delta unit only. The circuit is compiled by
+//! the real `build()`, run by the real runner, and its honest traces are proved and verified
+//! (fixture validation, `vpe3::Fixture`).
 //!
 //! On the honest traces EVERY single deviation of a value the verifier does not fix is applied
 //! (engine E3, `vpe3`), one at a time:
@@ -30,7 +38,10 @@
 //!       j in 8..16); the real executor chains the deviated output into the next row and
 //!       everything downstream is recomputed — the prover "altering / resetting the sponge
 //!       state between two permutations" for the part of the state that never lives in a
-//!       witness slot (the rate limbs do, class F2 covers them);
+//!       witness slot (the rate limbs do, class F2 covers them). In mode direct every limb
+//!       j in 0..16: a sampled rate output is aliased to its public slot there, whose first
+//!       writer is the public input (F2 on it is absorbed by re-choosing the public value), so
+//!       the closure is what deviates it, and the prover publishes the value that implies;
 //!   F5  every input limb of every permutation row that has NO witness slot (`vpe3`'s
 //!       `enumerate_f5`): on a `new_start` row an un-fed limb is the executor's implicit zero
 //!       (plus the absorb-length tag on D=1 rows) — role `unfed-input[sponge-start,rate |
@@ -68,7 +79,8 @@
 //!
 //! ## Keys
 //! `unbound:<family>:<clause>:<class>:<table>:<port role>:<what the deviated value carries>`
-//! — family = permutation packing (d4 | d1perm) + recompose table + coefficient-lookups flag;
+//! — family = permutation packing (d4 | d1perm) + recompose table + coefficient-lookups flag
+//! + `@direct` in the direct exposure mode (mode x7 keeps the bare family name);
 //! "carries" = provenance of the deviated slot in challenger terms (observed, const,
 //! rate-out[bus], capacity-out[hidden], coeff-of(…), bit-of(…), recomposed, alu.<kind>; for F5
 //! `implicit-zero[no-slot]` / `chained-state[no-slot]`, the port role names the row mode and
@@ -274,8 +286,41 @@ enum Role {
     Out,
 }
 
-/// The tagging constant of public outputs.
+/// The tagging constant of public outputs (exposure mode `x7`).
 const K: u64 = 7;
+
+/// How a sampled target `t` is made a public output of the circuit.
+#[derive(Clone, Copy, PartialEq, Eq, Debug, PartialOrd, Ord)]
+enum Mode {
+    /// `e = 7·t` through a `mul` row, `connect(7·t, public)`: the sample stays an ordinary
+    /// bus-read operand of an ALU row
+    X7,
+    /// `connect(t, public)`: the sampled slot itself IS the public slot (aliased); the row that
+    /// produces the sample (permutation rate output / decomposition hint / recomposition) is a
+    /// second creator of an already created slot
+    Direct,
+}
+impl Mode {
+    fn k(&self) -> u64 {
+        match self {
+            Mode::X7 => K,
+            Mode::Direct => 1,
+        }
+    }
+    fn tag(&self) -> &'static str {
+        match self {
+            Mode::X7 => "x7",
+            Mode::Direct => "direct",
+        }
+    }
+    fn parse(s: &str) -> Option<Mode> {
+        match s {
+            "x7" => Some(Mode::X7),
+            "direct" => Some(Mode::Direct),
+            _ => None,
+        }
+    }
+}
 
 fn tag_value<BF: PrimeField64>(seed: u64, k: usize, j: usize) -> BF {
     // non-zero, pairwise distinct for k < 60, j < 8, far from the small integers the challenger
@@ -298,7 +343,14 @@ struct Replayed<B: Backend> {
 
 /// Replays `hist` on the native challenger (to learn the honest public values) and on the real
 /// `CircuitChallenger` (to build the circuit); computes the C05 canonical state key.
-fn replay<B: Cfg>(hist: &[Act], rc: bool, ctl: bool, seed: u64, build: bool) -> Result<Replayed<B>, String> {
+fn replay<B: Cfg>(
+    hist: &[Act],
+    rc: bool,
+    ctl: bool,
+    seed: u64,
+    build: bool,
+    mode: Mode,
+) -> Result<Replayed<B>, String> {
     let mut nat = DuplexChallenger::<B::BF, B::Perm, 16, 8>::new(B::perm());
     let mut b = B::builder(rc);
     if ctl {
@@ -317,11 +369,20 @@ fn replay<B: Cfg>(hist: &[Act], rc: bool, ctl: bool, seed: u64, build: bool) -> 
                       roles: &mut Vec<Role>,
                       t: ExprId,
                       v: B::EF| {
-        let k = *kc.get_or_insert_with(|| b.define_const(kc_val));
-        let y = b.mul(t, k);
-        let e = b.public_input();
-        b.connect(y, e);
-        publics.push(v * kc_val);
+        match mode {
+            Mode::X7 => {
+                let k = *kc.get_or_insert_with(|| b.define_const(kc_val));
+                let y = b.mul(t, k);
+                let e = b.public_input();
+                b.connect(y, e);
+                publics.push(v * kc_val);
+            }
+            Mode::Direct => {
+                let e = b.public_input();
+                b.connect(t, e);
+                publics.push(v);
+            }
+        }
         roles.push(Role::Out);
     };
     for (step, a) in hist.iter().enumerate() {
@@ -430,6 +491,7 @@ fn show_ef<B: Backend>(x: &B::EF) -> String {
 
 /// The C06 oracle on the Public table of `traces`.
 fn judge<B: Cfg>(
+    k: u64,
     hist: &[Act],
     roles: &[Role],
     pub_row: &[usize],
@@ -440,7 +502,7 @@ fn judge<B: Cfg>(
         .iter()
         .map(|r| traces.public_trace.values.get(*r).copied().ok_or("public row missing"))
         .collect::<Result<_, _>>()?;
-    let kc = emb::<B>(B::BF::from_u64(K));
+    let kc = emb::<B>(B::BF::from_u64(k));
     let kinv = kc.try_inverse().ok_or("K not invertible")?;
     let mut nat = DuplexChallenger::<B::BF, B::Perm, 16, 8>::new(B::perm());
     let mut pos = 0usize;
@@ -476,7 +538,7 @@ fn judge<B: Cfg>(
                 let (p, v) = next(Role::Out)?;
                 if v != emb::<B>(exp) * kc && mismatch.is_none() {
                     mismatch = Some(format!(
-                        "step {step} sample: committed challenge (public {p} / {K}) {} but native({}) = {}",
+                        "step {step} sample: committed challenge (public {p} / {k}) {} but native({}) = {}",
                         show_ef::<B>(&(v * kinv)),
                         "committed observations",
                         fu(&exp)
@@ -488,7 +550,7 @@ fn judge<B: Cfg>(
                 let (p, v) = next(Role::Out)?;
                 if v != exp * kc && mismatch.is_none() {
                     mismatch = Some(format!(
-                        "step {step} sample_ext: committed challenge (public {p} / {K}) {} but native = {}",
+                        "step {step} sample_ext: committed challenge (public {p} / {k}) {} but native = {}",
                         show_ef::<B>(&(v * kinv)),
                         show_ef::<B>(&exp)
                     ));
@@ -500,7 +562,7 @@ fn judge<B: Cfg>(
                     let (p, v) = next(Role::Out)?;
                     if v != B::EF::from_bool((exp >> i) & 1 == 1) * kc && mismatch.is_none() {
                         mismatch = Some(format!(
-                            "step {step} sample_bits(3): committed bit {i} (public {p} / {K}) {} but native bits = {exp:03b}",
+                            "step {step} sample_bits(3): committed bit {i} (public {p} / {k}) {} but native bits = {exp:03b}",
                             show_ef::<B>(&(v * kinv))
                         ));
                     }
@@ -621,6 +683,7 @@ struct Fx<B: Cfg> {
     cfg_name: String,
     rc: bool,
     ctl: bool,
+    mode: Mode,
     seed: u64,
     /// history including the final `sample`
     hist: Vec<Act>,
@@ -663,8 +726,16 @@ fn alu_kind_name(k: p3_circuit::AluOpKind) -> &'static str {
 }
 
 impl<B: Cfg> Fx<B> {
-    fn new(cfg_name: &str, hist: &[Act], rc: bool, ctl: bool, seed: u64, prove_all: bool) -> Result<Self, String> {
-        let r = replay::<B>(hist, rc, ctl, seed, true)?;
+    fn new(
+        cfg_name: &str,
+        hist: &[Act],
+        rc: bool,
+        ctl: bool,
+        mode: Mode,
+        seed: u64,
+        prove_all: bool,
+    ) -> Result<Self, String> {
+        let r = replay::<B>(hist, rc, ctl, seed, true, mode)?;
         let circuit = r.circuit.ok_or("no circuit")?;
         // public position -> row of the Public table (rows are the Public ops in op order)
         let mut pub_row = vec![usize::MAX; r.publics.len()];
@@ -697,13 +768,16 @@ impl<B: Cfg> Fx<B> {
                 r.native_perms
             ));
         }
+        // the exposure mode is part of the family (and so of every key); mode x7 keeps the
+        // historical family names
         let family = format!(
-            "{}{}{}",
+            "{}{}{}{}",
             if B::PERM_D == 1 { "d1perm".to_string() } else { format!("d{}", B::PERM_D) },
             if rc { "+recompose" } else { "" },
-            if ctl { "+coeffctl" } else { "" }
+            if ctl { "+coeffctl" } else { "" },
+            if mode == Mode::Direct { "@direct" } else { "" }
         );
-        let name = format!("{cfg_name}[{}]", show(hist));
+        let name = format!("{cfg_name}@{}[{}]", mode.tag(), show(hist));
         // The public outputs were computed from the NATIVE transcript. If the circuit challenger
         // disagrees with the native one (a C05-type defect) the runner reports a conflict on a
         // public output; the honest prover would then simply commit the values the circuit
@@ -726,6 +800,7 @@ impl<B: Cfg> Fx<B> {
             cfg_name: cfg_name.to_string(),
             rc,
             ctl,
+            mode,
             seed,
             hist: hist.to_vec(),
             fx,
@@ -741,7 +816,7 @@ impl<B: Cfg> Fx<B> {
     }
 
     fn judge(&self, t: &Traces<B::EF>) -> Result<Judgement, String> {
-        match quiet_catch(|| judge::<B>(&self.hist, &self.roles, &self.pub_row, &self.fx.inputs.public, t)) {
+        match quiet_catch(|| judge::<B>(self.mode.k(), &self.hist, &self.roles, &self.pub_row, &self.fx.inputs.public, t)) {
             Ok(r) => r,
             Err(p) => Err(format!("oracle panicked: {p}")),
         }
@@ -819,11 +894,24 @@ impl<B: Cfg> Fx<B> {
     fn site(&self, d: &Dev) -> (String, String, String, String) {
         match d {
             Dev::Honest => ("H".into(), "-".into(), "-".into(), "-".into()),
-            Dev::Perm { limb, .. } => {
+            Dev::Perm { call, limb } => {
                 let t = vpe3::backend::poseidon_op_type::<B>()
                     .map(|t| vpe3::backend::key_table(t.as_str()))
                     .unwrap_or_default();
-                let prov = format!("{}-out[closure]", if *limb < 8 { "rate" } else { "capacity" });
+                // a rate limb (direct mode only) also says what its witness slot is: its own
+                // exposed slot (`rate-out[bus]`) or a slot some earlier row already created
+                // (`sample-out`: aliased to the public output by `connect`)
+                let slot = self.perm_ops.get(*call).and_then(|oi| match self.fx.circuit.ops.get(*oi) {
+                    Some(Op::NonPrimitiveOpWithExecutor { outputs, .. }) => {
+                        outputs.get(*limb).and_then(|g| g.first()).copied()
+                    }
+                    _ => None,
+                });
+                let prov = match (*limb < 8, slot) {
+                    (true, Some(s)) => format!("rate-out[closure]->{}", self.prov(s.0, 0)),
+                    (true, None) => "rate-out[closure]->no-slot".to_string(),
+                    (false, _) => "capacity-out[closure]".to_string(),
+                };
                 ("P".into(), t, "output-limb".into(), prov)
             }
             Dev::Fault(f) => {
@@ -879,7 +967,7 @@ impl<B: Cfg> DynFx for Fx<B> {
         // the tagging constant K belongs to the harness' exposure of the samples, not to the
         // challenger: neither its slot nor the ports reading it are deviated
         let k_slot: Option<u32> = self.fx.circuit.ops.iter().find_map(|op| match op {
-            Op::Const { out, val } if *val == emb::<B>(B::BF::from_u64(K)) => Some(out.0),
+            Op::Const { out, val } if self.mode == Mode::X7 && *val == emb::<B>(B::BF::from_u64(K)) => Some(out.0),
             _ => None,
         });
         let full = FULL_PUBLIC_FAULTS.load(Ordering::Relaxed);
@@ -928,8 +1016,13 @@ impl<B: Cfg> DynFx for Fx<B> {
         if B::PERM_D == 1 {
             for call in 0..self.perm_ops.len() {
                 // rate limbs have witness slots (class F2 covers them); the capacity limbs of a
-                // D=1 row only live in the table's chain
-                for limb in 8..16 {
+                // D=1 row only live in the table's chain. In the direct exposure mode a sampled
+                // rate output is ALIASED to its public slot (the public input is the slot's first
+                // writer, so F2 on that slot is absorbed by the re-chosen public value): the
+                // closure deviates in every output limb, the prover publishes the value the
+                // deviation implies
+                let first = if self.mode == Mode::Direct { 0 } else { 8 };
+                for limb in first..16 {
                     v.push(Dev::Perm { call, limb });
                 }
             }
@@ -1018,8 +1111,9 @@ impl<B: Cfg> DynFx for Fx<B> {
 
     fn what(&self, d: &Dev, e: &Eval) -> String {
         format!(
-            "{} history [{}]: deviation {} ({} {} {} carrying {}) is ACCEPTED by prove_all_tables+verify_all_tables, but {}",
+            "{} (exposure {}) history [{}]: deviation {} ({} {} {} carrying {}) is ACCEPTED by prove_all_tables+verify_all_tables, but {}",
             self.cfg_name,
+            self.mode.tag(),
             show(&self.hist),
             d.to_json(),
             e.class,
@@ -1031,7 +1125,7 @@ impl<B: Cfg> DynFx for Fx<B> {
     }
 
     fn replay_json(&self, d: &Dev) -> Value {
-        json!({"cfg": self.cfg_name, "recompose": self.rc, "coeff_ctl": self.ctl,
+        json!({"cfg": self.cfg_name, "recompose": self.rc, "coeff_ctl": self.ctl, "mode": self.mode.tag(),
                "history": show(&self.hist), "dev": d.to_json(), "seed": self.seed})
     }
 
@@ -1039,6 +1133,7 @@ impl<B: Cfg> DynFx for Fx<B> {
         let mut d = vpe3::Case::describe(&self.fx);
         d["history"] = json!(show(&self.hist));
         d["family"] = json!(self.family);
+        d["exposure_mode"] = json!(self.mode.tag());
         d["permutation_rows"] = json!(self.perm_ops.len());
         d["public_inputs"] = json!(self.roles.len());
         d
@@ -1054,7 +1149,7 @@ trait DynCfg: Send + Sync {
     fn thorough_depth(&self) -> usize;
     fn describe(&self) -> String;
     fn state_key(&self, hist: &[Act], seed: u64) -> Result<String, String>;
-    fn fixture(&self, hist: &[Act], seed: u64, prove_all: bool) -> Result<Box<dyn DynFx>, String>;
+    fn fixture(&self, hist: &[Act], mode: Mode, seed: u64, prove_all: bool) -> Result<Box<dyn DynFx>, String>;
 }
 
 struct Inst<B: Cfg> {
@@ -1084,13 +1179,13 @@ impl<B: Cfg> DynCfg for Inst<B> {
         )
     }
     fn state_key(&self, hist: &[Act], seed: u64) -> Result<String, String> {
-        match quiet_catch(|| replay::<B>(hist, self.rc, self.ctl, seed, false)) {
+        match quiet_catch(|| replay::<B>(hist, self.rc, self.ctl, seed, false, Mode::X7)) {
             Ok(r) => r.map(|r| r.key),
             Err(p) => Err(format!("panic: {p}")),
         }
     }
-    fn fixture(&self, hist: &[Act], seed: u64, prove_all: bool) -> Result<Box<dyn DynFx>, String> {
-        match quiet_catch(|| Fx::<B>::new(&self.name, hist, self.rc, self.ctl, seed, prove_all)) {
+    fn fixture(&self, hist: &[Act], mode: Mode, seed: u64, prove_all: bool) -> Result<Box<dyn DynFx>, String> {
+        match quiet_catch(|| Fx::<B>::new(&self.name, hist, self.rc, self.ctl, mode, seed, prove_all)) {
             Ok(r) => r.map(|f| Box::new(f) as Box<dyn DynFx>),
             Err(p) => Err(format!("panic: {p}")),
         }
@@ -1168,12 +1263,14 @@ fn main() {
             .unwrap_or_else(|| machinery_error("replay: unreadable history"));
         let dev = Dev::from_json(&r["dev"]).unwrap_or_else(|| machinery_error("replay: unreadable deviation"));
         let seed = r["seed"].as_u64().unwrap_or(ctx.seed);
+        // replays stored before the exposure modes existed are mode x7
+        let mode = r["mode"].as_str().and_then(Mode::parse).unwrap_or(Mode::X7);
         let cfg = insts
             .iter()
             .find(|c| c.name() == name)
             .unwrap_or_else(|| machinery_error(&format!("replay: unknown configuration {name}")));
         let fx = cfg
-            .fixture(&hist, seed, true)
+            .fixture(&hist, mode, seed, true)
             .unwrap_or_else(|e| machinery_error(&format!("replay: fixture: {e}")));
         let e = fx.eval(&dev);
         println!("replay {} {}: {}", fx.label(), dev.to_json(), e.to_json());
@@ -1204,7 +1301,19 @@ fn main() {
 
     // states of the automaton per configuration
     let mut per_cfg: Vec<Value> = vec![];
-    let mut plan: Vec<(usize, Vec<Act>)> = vec![]; // (cfg index, history without the final sample)
+    // exposure modes: every configuration in mode x7 (full depth) and in mode direct (quick:
+    // histories of depth <= 2; thorough: depth <= min(configuration depth, 4)); a variant =
+    // (configuration, mode)
+    let modes: Vec<Mode> = match ctx.opt("modes") {
+        Some("x7") => vec![Mode::X7],
+        Some("direct") => vec![Mode::Direct],
+        _ => vec![Mode::X7, Mode::Direct],
+    };
+    let ddepth_opt: Option<usize> = ctx.opt("ddepth").and_then(|s| s.parse().ok());
+    let direct_depth_of =
+        |c: &dyn DynCfg| ddepth_opt.unwrap_or(if ctx.quick() { 2 } else { 4 }).min(depth_of(c));
+    let mut variants: Vec<(usize, Mode)> = vec![]; // (index into `selected`, mode)
+    let mut plan: Vec<(usize, Vec<Act>)> = vec![]; // (variant index, history without the final sample)
     let mut total_states = 0usize;
     let mut total_transitions = 0usize;
     for (ci, cfg) in selected.iter().enumerate() {
@@ -1212,19 +1321,29 @@ fn main() {
             .unwrap_or_else(|e| machinery_error(&format!("{}: automaton exploration: {e}", cfg.name())));
         total_states += hs.len();
         total_transitions += tr;
+        let dd = direct_depth_of(cfg.as_ref());
         per_cfg.push(json!({"config": cfg.describe(), "automaton_states_within_depth": hs.len(),
-            "automaton_transitions_executed": tr, "depth": depth_of(cfg.as_ref())}));
-        for h in hs {
-            plan.push((ci, h));
+            "automaton_transitions_executed": tr, "depth": depth_of(cfg.as_ref()),
+            "exposure_modes": modes.iter().map(|m| m.tag()).collect::<Vec<_>>(),
+            "depth_in_mode_direct": dd,
+            "histories_in_mode_direct": if modes.contains(&Mode::Direct) { hs.iter().filter(|h| h.len() <= dd).count() } else { 0 }}));
+        for m in &modes {
+            let vi = variants.len();
+            variants.push((ci, *m));
+            for h in &hs {
+                if *m == Mode::X7 || h.len() <= dd {
+                    plan.push((vi, h.clone()));
+                }
+            }
         }
     }
 
     let depth = selected.iter().map(|c| depth_of(c.as_ref())).max().unwrap_or(0);
     if ctx.opt("dry").is_some() {
-        for (ci, cfg) in selected.iter().enumerate() {
+        for (vi, (ci, m)) in variants.iter().enumerate() {
             let per_level: Vec<usize> =
-                (0..=depth).map(|l| plan.iter().filter(|(c, h)| *c == ci && h.len() == l).count()).collect();
-            println!("{}: states per level {:?}", cfg.name(), per_level);
+                (0..=depth).map(|l| plan.iter().filter(|(c, h)| *c == vi && h.len() == l).count()).collect();
+            println!("{}@{}: states per level {:?}", selected[*ci].name(), m.tag(), per_level);
         }
         std::process::exit(0);
     }
@@ -1267,15 +1386,17 @@ fn main() {
         }
         let built: Vec<(usize, Vec<Act>, Result<Box<dyn DynFx>, String>)> = todo
             .par_iter()
-            .map(|(ci, h)| {
+            .map(|(vi, h)| {
                 let mut full = h.clone();
                 full.push(Act::Sample);
-                let fx = selected[*ci].fixture(&full, ctx.seed, prove_all);
-                (*ci, full, fx)
+                let (ci, mode) = variants[*vi];
+                let fx = selected[ci].fixture(&full, mode, ctx.seed, prove_all);
+                (*vi, full, fx)
             })
             .collect();
         let mut fxs: Vec<Box<dyn DynFx>> = vec![];
-        for (ci, h, fx) in built {
+        for (vi, h, fx) in built {
+            let (ci, mode) = variants[vi];
             match fx {
                 Ok(f) => fxs.push(f),
                 Err(e) => {
@@ -1283,8 +1404,15 @@ fn main() {
                     // C06 (completeness is C10's subject). Only tolerated for the non-default
                     // table combinations; for the configurations every backend uses it is a
                     // machinery error.
-                    let name = selected[ci].name().to_string();
-                    let tolerated = !matches!(name.as_str(), "kb-d4+rc" | "bb-d4+rc" | "kb-d5-base+rc+ctl");
+                    // (The direct exposure mode is a harness-chosen circuit shape, not something
+                    // a backend relies on: a shape whose honest circuit does not prove is
+                    // likewise listed and skipped.)
+                    let mut name = selected[ci].name().to_string();
+                    let tolerated = mode == Mode::Direct
+                        || !matches!(name.as_str(), "kb-d4+rc" | "bb-d4+rc" | "kb-d5-base+rc+ctl");
+                    if mode == Mode::Direct {
+                        name.push_str("@direct");
+                    }
                     if tolerated {
                         *skipped_count.entry(name.clone()).or_insert(0) += 1;
                         skipped_cfg.entry(name).or_insert_with(|| format!("[{}]: {e}", show(&h)));
@@ -1296,7 +1424,14 @@ fn main() {
         }
         let units: Vec<Vec<usize>> = fxs
             .iter()
-            .map(|f| if ctx.quick() || f.degree() == 1 || level > 3 { vec![0] } else { vec![0, f.degree() - 1] })
+            .map(|f| {
+                // (mode direct: base unit only — the deviation positions are what the mode adds)
+                if ctx.quick() || f.degree() == 1 || level > 3 || f.family().ends_with("@direct") {
+                    vec![0]
+                } else {
+                    vec![0, f.degree() - 1]
+                }
+            })
             .collect();
         // tasks in order; a work queue keeps the processing order close to the list order
         let mut tasks: Vec<(usize, Dev)> = vec![];
@@ -1454,7 +1589,7 @@ fn main() {
     let cov = json!({
         "evaluations": evaluations,
         "distinct_nontrivial": candidates,
-        "rule": "one evaluation = one single deviation (H honest / F2 slot with forward propagation / F4 row-local port deviation with propagation / F3 public slot in all rows without propagation / F1 Public-table cell / F5 slot-less input limb of a permutation row deviated, the row re-executed by the repository's executor and its outputs propagated / P permutation closure deviating on call k limb j with in-table chaining) applied to the honest traces of the circuit the real CircuitChallenger builds for one history; deviations are pairwise distinct by construction (every slot, port, cell, (call, limb) once per delta unit). Non-trivial = the deviation really changes the committed statement into an INCONSISTENT one (a committed sampled challenge differs from the native challenge of the committed observed values) AND the real prover+verifier decided it: a sound transcript must reject exactly these. Deviations that leave the trace unchanged (noop) or yield a consistent statement are counted separately and (unless --opt prove=all) not proved, because their verdict cannot change the oracle's answer",
+        "rule": "one evaluation = one single deviation (H honest / F2 slot with forward propagation / F4 row-local port deviation with propagation / F3 public slot in all rows without propagation / F1 Public-table cell / F5 slot-less input limb of a permutation row deviated, the row re-executed by the repository's executor and its outputs propagated / P permutation closure deviating on call k limb j with in-table chaining; mode direct: every limb incl. the rate limbs aliased to public outputs) applied to the honest traces of the circuit the real CircuitChallenger builds for one (history, exposure mode); deviations are pairwise distinct by construction (every slot, port, cell, (call, limb) once per delta unit). Non-trivial = the deviation really changes the committed statement into an INCONSISTENT one (a committed sampled challenge differs from the native challenge of the committed observed values) AND the real prover+verifier decided it: a sound transcript must reject exactly these. Deviations that leave the trace unchanged (noop) or yield a consistent statement are counted separately and (unless --opt prove=all) not proved, because their verdict cannot change the oracle's answer",
         "samples": *samples.lock().unwrap(),
         "exhaustive": exhaustive,
         "depth_bound": depth,
@@ -1490,7 +1625,13 @@ fn main() {
         "histogram_family_site_outcome": site_histo.to_json(),
         "cases": fixtures_json,
         "delta_units": if ctx.quick() { json!([0]) } else { json!("histories of length <= 3: base unit and top basis element; longer: base unit") },
-        "oracle": "native p3_challenger::DuplexChallenger replayed on the observed values committed in the Public table; committed sampled challenge = public output / 7",
+        "oracle": "native p3_challenger::DuplexChallenger replayed on the observed values committed in the Public table; committed sampled challenge = public output / 7 (mode x7) or the public output itself (mode direct)",
+        "exposure_modes": {
+            "x7": "public = 7 * sample through a mul row (all histories of the depth bound)",
+            "direct": "connect(sample, public): the sampled slot is aliased to the public slot (histories of depth <= 2 quick / <= min(depth, 4) thorough; base delta unit; class P deviates every output limb 0..16); families are suffixed @direct",
+            "modes_run": modes.iter().map(|m| m.tag()).collect::<Vec<_>>(),
+            "variants": variants.iter().map(|(ci, m)| format!("{}@{}", selected[*ci].name(), m.tag())).collect::<Vec<_>>(),
+        },
     });
     if crosscheck_bad > 0 {
         eprintln!("WARNING: {crosscheck_bad} oracle violations on which vpe3's predicate holds — investigate the harness");
@@ -1500,7 +1641,7 @@ fn main() {
         cov,
         vec![
             "STARK/LogUp soundness: 'the verifier accepts' is read as 'AIR constraints and bus hold'; a violation is only reported when the real prover+verifier really accepted the deviated trace".into(),
-            "p3-challenger 0.6.3 DuplexChallenger is the native transcript; the committed statement of a trace is its Public table (observed inputs, K·sampled outputs with K = 7)".into(),
+            "p3-challenger 0.6.3 DuplexChallenger is the native transcript; the committed statement of a trace is its Public table (observed inputs; sampled outputs: K·sample with K = 7 in exposure mode x7, the sample itself in mode direct)".into(),
             "single deviations of size +1 (quick: base unit; thorough: also the top basis element); positions are enumerated, values are not; multi-deviation forgeries (e.g. rewriting all observed publics at once) are not needed to show unboundness and are not enumerated".into(),
             "the automaton key is C05's (buffer lengths, flags, const-ness masks, capped permutation count); it only selects which histories are turned into circuits".into(),
             "only challenger operations are in the circuit (no foreign permutation rows between two challenger permutations of the D=1 chain)".into(),
